@@ -4,5 +4,5 @@ ASSUME = ["A-INT: Python/numpy ints treated as mathematical integers", "A-FLOAT:
 
 
 def run(tier, seed):
-    return run_components("C01", tier, seed, ['e1', 'e2'], ASSUME,
+    return run_components("C01", tier, seed, ["e1", "e2", lambda rep, t, s: __import__("checks.e3ir", fromlist=["x"]).run_e3ir(rep, "C01", t)], ASSUME,
                           ["kernelvc (E2 walker; scoping mirrors C/formatter.py)", "UFL form data as oracle for extents"])
